@@ -62,6 +62,10 @@ func (b *hb) fresh() int { // an id that is not stored (falls back to any id)
 // distances < 1 (where d^2 < d), scales > 1 make areas large.
 var Scales = []float64{1, 1, 1, 0.5, 1.0 / 8, 1.0 / 64, 1.0 / 1024, 16}
 
+// BigScales: units beyond the float32 range (2^128) but with squares far inside float64
+// (coordinates stay below 2^500, squared distances below 2^1001); exact in float64 and Rat.
+var BigScales = []float64{0x1p100, 0x1p127, 0x1p128, 0x1p130, 0x1p200, 0x1p400}
+
 func makePool(r *vproto.Rng, kind string, n int, layout int, sc float64) []Box {
 	pool := make([]Box, 0, n)
 	seen := map[[2]float64]bool{}
@@ -200,7 +204,11 @@ func (b *hb) queries(n int) {
 	if b.lattice {
 		ext = 1100
 	}
-	qs := []Box{{-1e6, -1e6, 1e6, 1e6}}
+	w := 1e6
+	if sc > 1 {
+		w *= sc
+	}
+	qs := []Box{{-w, -w, w, w}}
 	for len(qs) < n {
 		o := pool[r.Intn(len(pool))]
 		switch r.Intn(9) {
@@ -231,6 +239,9 @@ func GenHist(r *vproto.Rng, phase int, par [2]int, kind string, size int, nq int
 	h := &Hist{Min: par[0], Max: par[1], Kind: kind}
 	layout := r.Intn(6)
 	sc := Scales[r.Intn(len(Scales))]
+	if r.Chance(0.22) {
+		sc = BigScales[r.Intn(len(BigScales))]
+	}
 	if layout == 5 {
 		sc = 1.0 / 1024
 	}
@@ -289,7 +300,11 @@ func GenHist(r *vproto.Rng, phase int, par [2]int, kind string, size int, nq int
 		q = Box{q.MinX * sc, q.MinY * sc, q.MaxX * sc, q.MaxY * sc}
 		b.regionDelete(q)
 		b.grow(n / 3)
-		b.regionDelete(Box{-1e6, -1e6, 1e6, 1e6})
+		all := 1e6
+		if sc > 1 {
+			all *= sc
+		}
+		b.regionDelete(Box{-all, -all, all, all})
 		b.grow(2)
 	case 3: // random mix
 		b.churn(3*n, 0.55+0.3*r.Float())
